@@ -336,7 +336,7 @@ func planReoutline(roots []*packages.Package, missing []string, renames map[stri
 					}
 				}
 			}
-			src = append(append(append([]byte{}, src[:pkgEnd]...), ("\n" + strings.Join(add, "\n") + "\n")...), src[pkgEnd:]...)
+			src = append(append(append([]byte{}, src[:pkgEnd]...), ("\n"+strings.Join(add, "\n")+"\n")...), src[pkgEnd:]...)
 		}
 		plan.overlay[fname] = src
 	}
